@@ -354,6 +354,42 @@ P("C08",
                "ThreadSanitizer judges the executions actually produced; an interleaving needing a pre-emption inside Eigen's CG loop is out of reach"])
 
 
+P("C07",
+  variants=["san", "sannd"],
+  rc={"quick": (6, 1500, 100, 8), "thorough": (8, 30000, 100, 12)},
+  fuzz={"quick": (6, 200000, 4096), "thorough": (8, 5000000, 4096)},
+  budget={"quick": 100, "thorough": 2400},
+  case_timeout=120,
+  hang_s=60,
+  rule=CIRCUIT_RULE + "Biased to the nanometre scale (5/9) and to degenerate shapes (single row, single movable cell, no nets, "
+       "degree-1 nets, all pins on one cell, all cells fixed but one, zero-size terminals, over-full); flows: each stage, "
+       "global->legalize->detailed, global->detailed, legalize->legalize->detailed, with or without an observing callback; "
+       "global parameters in the moderate box, maxNbSteps <= 20 (40). Oracle: the process survives - a std::exception is "
+       "fine; an assert abort, an ASan/UBSan report (signed overflow, out of bounds, integer division by zero, "
+       "float-cast-overflow, null), a non-std exception or a case that does not end within 60 s alone (3/3) is a violation. "
+       "Engines: libFuzzer on the tape bytes (structure-aware through the decoder) plus rapidcheck workers, on the `san` "
+       "build (assertions on) and the `sannd` build (NDEBUG). non-trivial = the case reached >= 2 stages or threw, at decade "
+       "or nanometre scale; distinct = hash of circuit, flow and shape.",
+  assumptions=["resource bounds of the harness: no positive cell height below half a row when global placement runs (bounds the bin count), maxNbSteps, reordering window <= 5 cells",
+               "the class of known finding c06-unanchored-far-from-origin is excluded by construction and counted"])
+
+
+P("C20",
+  python=True,
+  rule="Hypothesis strategies (seeded with VERIF_SEED) build circuits the text format can carry: 1..8 cells of size 0..20 x "
+       "0..12 times a scale in {1,10,100,1000} (so sizes < 1e5), placed (any of the 8 orientations) or unplaced, fixed flags, "
+       "1..5 row levels with 1..2 segments and orientations N/FS/S/FN, 0..8 nets of degree 1..5 with pins inside, on the "
+       "corners and outside the outline. A C++ tool built from the current tree builds the Circuit, calls exportIspd and "
+       "prints hpwl(); the package's own reader (pycoloquinte/coloquinte.py, run against a pure-Python stand-in for the "
+       "compiled module) reads the files back; sizes, fixed flags, x, y, orientation, net connectivity, raw pin offsets, row "
+       "rectangles and row orientations must be reproduced, and an independent Python reference HPWL must equal the C++ value "
+       "before and after the round trip. non-trivial = a pin with an asymmetric offset on a non-N cell, or a non-N row; "
+       "distinct = hash of the case. Exhaustive part ('programs'): every py::enum_ value, def_readwrite, def_property and "
+       ".def in module.cpp is parsed and must name the C++ entity of the same name in coloquinte.hpp.",
+  assumptions=["the compiled Python module cannot be built here (empty pybind11 submodule): the reader runs against a stand-in, as the property's observation point says",
+               "sizes below 1e5 so that the default stream precision of the writer is exact"])
+
+
 # ----------------------------------------------------------------------------
 def sh(cmd, **kw):
     return subprocess.run(cmd, stdout=subprocess.PIPE, stderr=subprocess.STDOUT, text=True, **kw)
@@ -737,8 +773,112 @@ def union_hashes(prefixes):
     return len(seen)
 
 
+def build_c20_tool():
+    """Library (san variant) + the small export tool of C20."""
+    build(["C20"], quiet=True)
+    rk = repo_key()
+    flags = COMMON + VARIANTS["san"]
+    key = hashlib.sha256((rk + " ".join(flags)).encode()).hexdigest()[:16]
+    libdir = os.path.join(BUILD, "lib", "san-%s" % key)
+    src = os.path.join(HARNESS, "c20_export.cpp")
+    tkey = hashlib.sha256((key + file_hash([src])).encode()).hexdigest()[:12]
+    d = os.path.join(BUILD, "bin", "C20-tool-%s" % tkey)
+    exe = os.path.join(d, "c20_export")
+    if not os.path.exists(exe):
+        gc_dirs(os.path.join(BUILD, "bin"), "C20-tool-", set())
+        os.makedirs(d, exist_ok=True)
+        r = sh([CXX] + COMMON + SAN + [src, os.path.join(libdir, "libcoloquinte.a")] + LIBS + ["-o", exe + ".tmp"])
+        if r.returncode != 0:
+            raise BuildError(r.stdout[-4000:])
+        os.replace(exe + ".tmp", exe)
+    return exe
+
+
+def run_check_c20(tier, seed, replay=None):
+    pid = "C20"
+    cfg = PROPS[pid]
+    t_start = time.time()
+    try:
+        tool = build_c20_tool()
+    except BuildError as e:
+        print(str(e))
+        print("BUILD-FAILED property=C20")
+        return 2
+    script = os.path.join(VERIF, "py", "c20_check.py")
+    work = os.path.join(BUILD, "run", "C20-%s" % tier)
+    shutil.rmtree(work, ignore_errors=True)
+    os.makedirs(work)
+    base = ["python3-vt", script, "--tool", tool, "--repo", REPO, "--work", work,
+            "--viol-dir", os.path.join(OUTDIR, "violations", "C20")]
+    if replay:
+        r = subprocess.run(base + ["--replay", replay])
+        if r.returncode != 0:
+            print("VIOLATION property=C20 replay=%s" % replay)
+            return 1
+        return 0
+    out = os.path.join(work, "result.json")
+    budget = 600 if tier == "quick" else 3600
+    try:
+        r = subprocess.run(base + ["--tier", tier, "--seed", str(seed), "--out", out], stdout=subprocess.PIPE,
+                           stderr=subprocess.STDOUT, text=True, timeout=budget)
+        log = r.stdout
+    except subprocess.TimeoutExpired as e:
+        log = "timeout"
+    if not os.path.exists(out):
+        print(log[-3000:])
+        print("inconclusive: the C20 driver did not produce a result")
+        return 2
+    res = json.load(open(out))
+    findings = [f for f in load_findings() if f["property"] == pid and f["status"] == "known"]
+    violations, known_hits = [], {}
+    for f in res["failures"] + res["replay_failures"]:
+        k = [kf for kf in findings if re.search(kf["match"], f["reason"])]
+        if k:
+            known_hits[k[0]["slug"]] = (k[0], f["reason"])
+        else:
+            violations.append((f["replay"], f["reason"]))
+    if res["binding_problems"]:
+        bp = os.path.join(OUTDIR, "violations", "C20")
+        os.makedirs(bp, exist_ok=True)
+        path = os.path.join(bp, "bindings.json")
+        json.dump(res["binding_problems"], open(path, "w"), indent=1)
+        for p in res["binding_problems"]:
+            k = [kf for kf in findings if re.search(kf["match"], p)]
+            if k:
+                known_hits[k[0]["slug"]] = (k[0], p)
+            else:
+                violations.append((path, "binding table: " + p))
+    coverage = {
+        "evaluations": res["evaluations"] + res["programs"] + res["replayed"],
+        "distinct_nontrivial": res["distinct"],
+        "rule": cfg["rule"],
+        "samples": res["samples"] or [{"note": "no sample"}],
+        "generated_cases": res["evaluations"],
+        "programs": res["programs"],
+        "disagreements_checked": len(res["binding_problems"]),
+        "binding_samples": res.get("binding_samples", []),
+        "replayed_cases": res["replayed"],
+        "violating_cases": [{"replay": t, "reason": r_} for t, r_ in violations][:10],
+        "known_findings_seen": sorted(known_hits),
+        "exhaustive_note": "the binding table part enumerates every binding of module.cpp; the round trips are a sample",
+    }
+    write_evidence(pid, tier, seed, cfg, coverage, len(violations), time.time() - t_start)
+    for slug, (f, sig) in sorted(known_hits.items()):
+        print("KNOWN-FINDING: property=%s %s [%s; observed: %s]" % (pid, f["what"], slug, sig[:160]))
+    print("C20 %s: %d round trips, %d distinct non-trivial, %d bindings checked, %d replayed, %.0fs" % (
+        tier, res["evaluations"], res["distinct"], res["programs"], res["replayed"], time.time() - t_start))
+    if violations:
+        for t, r_ in violations[:5]:
+            print("VIOLATION property=%s replay=%s" % (pid, t))
+            print("  reason: %s" % r_)
+        return 1
+    return 0
+
+
 def run_check(pid, tier, seed, opts):
     cfg = PROPS[pid]
+    if cfg.get("python"):
+        return run_check_c20(tier, seed)
     t_start = time.time()
     findings = [f for f in load_findings() if f["property"] == pid]
     known = [f for f in findings if f["status"] == "known"]
@@ -836,7 +976,8 @@ def run_check(pid, tier, seed, opts):
                     shutil.copy(os.path.join(seed_corpus, fn), corpus)
             if os.path.isdir(rdir):
                 for fn in os.listdir(rdir):
-                    if fn.endswith(".tape"):
+                    # reproducers of known findings would end the campaign at once
+                    if fn.endswith(".tape") and not fn.startswith("known-"):
                         shutil.copy(os.path.join(rdir, fn), corpus)
             env = dict(base_env)
             env["VERIF_OUT"] = prefix
@@ -1058,6 +1199,8 @@ def main():
         return 2
     if args[0] == "build":
         pids = args[1:] or sorted(PROPS)
+        if "C20" in pids:
+            build_c20_tool()
         pids = [p for p in pids if os.path.exists(os.path.join(HARNESS, "prop_%s.cpp" % p))]
         build(pids)
         return 0
@@ -1088,6 +1231,8 @@ def main():
             return 2
     if tier not in ("quick", "thorough"):
         tier = "quick"
+    if replay and PROPS[pid].get("python"):
+        return run_check_c20(tier, seed, replay=replay)
     if replay:
         bins = build([pid], quiet=True)
         v = PROPS[pid]["variants"][0]
